@@ -40,6 +40,7 @@ structure DS where
   shield : Shield.State := default
   hasShield : Bool := false
   shieldOutside : Bool := false      -- coins of a denomination the shield model does not cover were seen
+  reimbCoins : List (Nat × Coins) := []   -- the recorded reimbursements with every denomination they name
   -- C14 ghost ledger (from observations only)
   dep : List (Addr × Coins) := []
   ret : List (Addr × Coins) := []
@@ -81,7 +82,9 @@ def loadObs (ds : DS) (st : Json) : DS := Id.run do
   if J.has st "shield" then
     let j := J.get st "shield"
     ds := { ds with shield := ShieldD.parseState j, hasShield := true,
-                    shieldOutside := ds.shieldOutside || ShieldD.outsideModel j }
+                    shieldOutside := ds.shieldOutside || ShieldD.outsideModel j,
+                    reimbCoins := (J.arrOf j "proposalID_reimbursement_pairs").map (fun r =>
+                      ((J.intOf r "proposal_id").toNat, J.sdkCoins (J.get (J.get r "reimbursement") "amount"))) }
   return ds
 
 def oracleEnv (ds : DS) : Oracle.Env := { h := ds.h, t := ds.t, bond := "uctk", modAddr := ds.sys.modAddr "oracle" }
@@ -323,6 +326,14 @@ def runMonitors (ds : DS) (afterBegin boundary : Bool) : IO DS := do
   if ds.hasShield && boundary then
     ds := stat ds "mon.shield.boundary"
     let mb := ds.ledger.balOf (ds.sys.modAddr "shield") "uctk"
+    -- C02 / C04 in the denominations the shield model does not cover: whatever a recorded reimbursement names must be in the
+    -- module account (the model's identity covers the bond denomination; nothing is ever collected in any other)
+    let denoms := ((ds.reimbCoins.map (fun r => r.2.map (·.1))).foldl (· ++ ·) []).eraseDups.filter (· != "uctk")
+    for d in denoms do
+      let owed := ds.reimbCoins.foldl (fun acc r => acc + Coins.amountOf r.2 d) 0
+      let held := ds.ledger.balOf (ds.sys.modAddr "shield") d
+      if owed > held then
+        ds ← finding ds "monitor" "C02,C04" "reimbursements_funded_in_every_denomination" s!"recorded reimbursements name {owed}{d}, the module account holds {held}{d} (nothing is collected from providers in that denomination): {ds.reimbCoins.map (fun r => (r.1, Coins.toStr r.2))}"
     if !ds.shieldOutside then
       if !Shield.fundInvB mb ds.shield then
         let s := ds.shield
